@@ -184,8 +184,30 @@ class History:
                 self.fitted_d = D["X"].shape[1]
                 self.path_before = True
             elif op == "set_params":
-                est.set_params(**{step["name"]: step["value"]})
-                self.spec = dict(self.spec, **{step["name"]: step["value"]})
+                changes = {step["name"]: step["value"]}
+                if step["name"] in ("kernel", "metric", "base_kernel") and not self.kauri:
+                    changes[step["name"] + "_params"] = None  # parameters of the previous kernel do not fit the new one
+                est.set_params(**changes)
+                self.note_param(step["name"], step["value"])
+                return
+            elif op == "mutate_data":
+                # the caller rewrites its own array in place between calls (same object, new content)
+                rs = np.random.RandomState(step["seed"])
+                X = D["X"]
+                new = X[rs.permutation(len(X))] * (1.0 + 0.5 * rs.rand()) + 0.1 * rs.randn(*X.shape)
+                if np.all(X >= 0):
+                    new = np.abs(new)
+                if self.spec.get("aff") and self.spec["aff"].get("name") == "haversine":
+                    new = np.clip(new, -1.5, 1.5)
+                X[:] = new
+                D["Xc"] = X.copy()
+                if D["y"] is not None:
+                    new_y = self.affinity_for(D["spec"], X)
+                    if new_y is None:  # the estimator no longer uses a precomputed affinity (set_params changed it)
+                        D["y"], D["yc"] = None, None
+                    else:
+                        D["y"][:] = new_y
+                        D["yc"] = D["y"].copy()
                 return
             elif op == "clone":
                 self.est = self.fresh_clone()
@@ -207,6 +229,25 @@ class History:
         if op in ("fit", "fit_predict", "predict", "predict_proba", "score") and not params_equal(before, params_snapshot(est)):
             changed = [k for k in before if not params_equal({k: before[k]}, {k: est.get_params(deep=False)[k]})]
             raise Violation(f"{self.label}: {op} modified the hyper-parameters {changed}")
+
+    def note_param(self, name, value):
+        """Keeps the harness's own description of the estimator in step with set_params."""
+        sp = dict(self.spec)
+        if name in ("kernel", "metric") and "aff" in sp:
+            sp["aff"] = dict(sp["aff"], name=value, params={})
+        elif name in ("kernel_params", "metric_params", "base_kernel_params"):
+            pass
+        elif name == "kernel" and self.kauri:
+            sp["kernel"] = dict(sp["kernel"], name=value)
+        elif name == "base_kernel":
+            sp["base_kernel"] = dict(sp["base_kernel"], name=value, params={})
+        elif name == "gemini":
+            sp["gemini"] = {"kind": "none"} if value is None else {"kind": "name", "name": value}
+        else:
+            sp[name] = value
+        self.spec = sp
+        for D in self.data:
+            D["spec"] = dict(D["spec"], **{k: sp[k] for k in ("aff", "kernel", "base_kernel", "gemini") if k in sp})
 
     def _args(self, D):
         with warnings.catch_warnings():
@@ -268,11 +309,11 @@ KAURI_SETTABLE = {"max_depth": [None, 1, 3], "max_leaves": [None, 2, 5], "random
 
 
 @st.composite
-def machine_spec(draw):
-    if draw(st.integers(0, 9)) == 0:
+def machine_spec(draw, classes=None):
+    if classes == ["Kauri"]:
         s = draw(E.kauri_spec(n_max=12, d_max=3))
         return {"spec": s, "mlcl": None}
-    s = draw(E.est_spec(n_max=9, d_max=3, iter_max=2, k_max=3, hidden_max=3, n_min=3,
+    s = draw(E.est_spec(classes=classes, n_max=9, d_max=3, iter_max=2, k_max=3, hidden_max=3, n_min=3,
                         kernel_forms=("named", "precomputed", "callable"), metric_forms=("named", "precomputed", "callable")))
     if s["cls"] in E.SPARSE:
         s["alpha"] = draw(st.sampled_from([0.5, 2.0, 0.1]))
@@ -281,14 +322,64 @@ def machine_spec(draw):
     return {"spec": s, "mlcl": mlcl}
 
 
-def step_strategy(spec):
+def settable_for(spec):
+    cls = spec["cls"]
+    if cls == "Kauri":
+        t = dict(KAURI_SETTABLE)
+        if spec["kernel"]["form"] == "named" and spec["kernel"]["name"] not in gens.NONNEG_KERNELS:
+            t["kernel"] = ["linear", "rbf", "cosine"]
+        return t
+    t = dict(SETTABLE)
+    if cls not in E.NO_BATCH_ARG:
+        t["batch_size"] = [None, 1, 2, 5]
+    if cls in E.GENERIC:
+        t["gemini"] = ["mmd_ova", "mi", "tv_ovo", "wasserstein_ova", None]
+    if cls in E.MMD_CLASSES:
+        t["ovo"] = [False, True]
+        if spec["aff"]["form"] == "named" and spec["aff"]["name"] not in gens.NONNEG_KERNELS:
+            t["kernel"] = ["linear", "rbf", "laplacian", "cosine"]
+            t["kernel_params"] = [None]
+    if cls in E.WASS_CLASSES:
+        t["ovo"] = [False, True]
+        if spec["aff"]["form"] == "named" and spec["aff"]["name"] != "haversine":
+            t["metric"] = ["euclidean", "manhattan", "cosine"]
+            t["metric_params"] = [None]
+    if cls in ("RIM", "KernelRIM"):
+        t["reg"] = [0.0, 0.1, 1.0]
+    if cls == "KernelRIM" and spec["base_kernel"]["form"] == "named" and spec["base_kernel"]["name"] not in gens.NONNEG_KERNELS:
+        t["base_kernel"] = ["linear", "rbf", "laplacian", "cosine"]
+        t["base_kernel_params"] = [None]
+    if cls in E.MLPS:
+        t["n_hidden_dim"] = [1, 2, 4]
+    if cls in E.SPARSE:
+        t["alpha"] = [0.1, 0.5, 2.0]
+    if cls in ("SparseMLPModel", "SparseMLPMMD"):
+        t["M"] = [0.1, 1.0, 10.0]
+    if cls == "Douglas":
+        t["n_cuts"] = [1, 2]
+        t["temperature"] = [0.1, 1.0]
+    return {k: v for k, v in t.items() if v}
+
+
+def step_strategy(spec, changes_only=False):
     kauri = spec["cls"] == "Kauri"
-    table = KAURI_SETTABLE if kauri else SETTABLE
-    sp = st.sampled_from(sorted(table)).flatmap(lambda n: st.sampled_from(table[n]).map(lambda v: {"op": "set_params", "name": n, "value": v}))
+    table = settable_for(spec)
+    def param_step(names):
+        return st.sampled_from(sorted(names)).flatmap(
+            lambda n: st.sampled_from(table[n]).map(lambda v: {"op": "set_params", "name": n, "value": v}))
+
+    generic = [n for n in table if n in SETTABLE or n in KAURI_SETTABLE]
+    specific = [n for n in table if n not in generic] or generic
+    sp = param_step(generic)
+    sp2 = param_step(specific)
+    if changes_only:
+        return st.one_of(sp, sp2, sp2, st.builds(lambda z: {"op": "mutate_data", "ds": 0, "seed": z}, st.integers(0, 1000)))
     ds = st.integers(0, 2)
     ops = [st.builds(lambda d: {"op": "fit", "ds": d}, ds), st.builds(lambda d: {"op": "fit_predict", "ds": d}, ds),
            st.builds(lambda d: {"op": "predict", "ds": d}, ds), st.builds(lambda d: {"op": "predict_proba", "ds": d}, ds),
-           st.builds(lambda d: {"op": "score", "ds": d}, ds), sp, st.just({"op": "clone"}), st.just({"op": "probe_fit"})]
+           st.builds(lambda d: {"op": "score", "ds": d}, ds), sp, sp2, sp2, st.just({"op": "clone"}), st.just({"op": "probe_fit"}),
+           st.just({"op": "probe_fit"}), st.just({"op": "mutate_data", "ds": 0, "seed": 3}),
+           st.builds(lambda d, z: {"op": "mutate_data", "ds": d, "seed": z}, ds, st.integers(0, 1000))]
     if spec["cls"] in E.SPARSE:
         ops += [st.builds(lambda d: {"op": "path", "ds": d}, ds), st.just({"op": "probe_path"})]
     return st.one_of(*ops)
@@ -305,7 +396,7 @@ def interpret(case):
             "counts": {"steps": len(case["steps"]), "probes": h.probes, "probes_after_history": h.nontrivial_probes}}
 
 
-def machine_factory(hook):
+def machine_factory(hook, classes=None):
     class Machine(RuleBasedStateMachine):
         def __init__(self):
             super().__init__()
@@ -313,9 +404,11 @@ def machine_factory(hook):
             self.h = None
             self.case = None
 
-        @initialize(ms=machine_spec())
+        @initialize(ms=machine_spec(classes))
         def setup(self, ms):
             self.case = {"spec": ms["spec"], "mlcl": ms["mlcl"], "steps": []}
+            self.step_strat = step_strategy(ms["spec"])  # fixed per machine: generation must not depend on run-time state
+            self.change_strat = step_strategy(ms["spec"], changes_only=True)
             try:
                 self.h = History(ms["spec"], ms["mlcl"])
             except ValueError:
@@ -338,10 +431,19 @@ def machine_factory(hook):
         def step(self, data):
             if self.h is None:
                 return
-            self._do(data.draw(step_strategy(self.h.spec)))
+            self._do(data.draw(self.step_strat))
 
         @rule()
         def probe(self):
+            self._do({"op": "probe_fit"})
+
+        @rule(data=st.data())
+        def change_then_probe(self, data):
+            """fit, then a hyper-parameter change or an in-place rewrite of the caller's array, then the probe"""
+            if self.h is None:
+                return
+            self._do({"op": "fit", "ds": 0})
+            self._do(data.draw(self.change_strat))
             self._do({"op": "probe_fit"})
 
         @precondition(lambda self: self.h is not None and self.h.spec["cls"] in E.SPARSE)
@@ -361,4 +463,12 @@ def machine_factory(hook):
 
 
 def subs():
-    return [Sub("histories", None, interpret, 600, 10000, "rule-based state machine over public calls", machine=machine_factory, steps=12)]
+    fam = {"linear": ["LinearModel", "LinearMMD", "LinearWasserstein", "RIM", "KernelRIM"],
+           "mlp": ["MLPModel", "MLPMMD", "MLPWasserstein"], "sparse": E.SPARSE,
+           "categorical_douglas": E.CATEGORICAL + ["Douglas"], "kauri": ["Kauri"]}
+    budget = {"linear": (260, 4000), "mlp": (120, 2000), "sparse": (200, 3000), "categorical_douglas": (160, 2500), "kauri": (120, 2000)}
+    out = []
+    for k, v in fam.items():
+        out.append(Sub("histories_" + k, None, interpret, budget[k][0], budget[k][1], "rule-based state machine: " + ", ".join(v),
+                       machine=(lambda hook, v=v: machine_factory(hook, v)), steps=14))
+    return out
